@@ -425,8 +425,13 @@ def project(eng, prev_ids):
     lnode = eng.state.inner.get('leaves')
     if lnode is not None:
         leaves = {k: (n.value if isinstance(n.value, int) else -999) for k, n in lnode.inner.items()}
+    try:
+        bys = eng.state.inner['glob'].inner['b'].value
+        bys = bys if isinstance(bys, int) else -999
+    except Exception:
+        bys = -999
     obs = {
-        'tree': tree, 'origin': origin, 'leaves': leaves,
+        'tree': tree, 'origin': origin, 'leaves': leaves, 'bys': bys,
         'eprocs': comp_paths([flat(p) for p in eng.process_paths]),
         'esteps': comp_paths([flat(p) for p in eng._step_paths]),
         'eseq': [flat(p) for p in g._sequential_steps],
